@@ -86,6 +86,27 @@ func (vc *VC) execInstr(fr *frame, b *ssa.BasicBlock, ins ssa.Instruction, st *s
 		if len(addr.Loc.Path) == 0 && addr.Loc.Kind == LCell {
 			vc.oblige("nil-deref", fmt.Sprintf("store target %s is not nil", x.Addr.Name()), nil, vc.pos(fr, x.Pos()), st.reach, "(not (= "+addr.Loc.Ref+" 0))")
 		}
+		// encapsulation: a field with declared writers is assigned by nobody else
+		if fa, ok := x.Addr.(*ssa.FieldAddr); ok && len(vc.eng.contracts.FieldWriters) > 0 {
+			if pt, ok := fa.X.Type().Underlying().(*types.Pointer); ok {
+				if named, ok := pt.Elem().(*types.Named); ok {
+					if st2, ok := named.Underlying().(*types.Struct); ok && fa.Field < st2.NumFields() {
+						fkey := named.Obj().Name() + "." + st2.Field(fa.Field).Name()
+						if ws, ok := vc.eng.contracts.FieldWriters[fkey]; ok {
+							allowed := false
+							for _, w := range ws {
+								if w == funcKey(fr.fn) {
+									allowed = true
+								}
+							}
+							if !allowed {
+								vc.oblige("field-writer", fmt.Sprintf("%s is assigned only by %s (here: %s)", fkey, strings.Join(ws, ", "), funcKey(fr.fn)), nil, vc.pos(fr, x.Pos()), st.reach, "false")
+							}
+						}
+					}
+				}
+			}
+		}
 		vc.store(st, addr.Loc, t)
 	case *ssa.BinOp:
 		vc.execBinOp(fr, x, st)
